@@ -244,7 +244,7 @@ static void do_reset(void)
 	}
 	memset(sdue, 0, sizeof sdue);
 	depth = 0;
-	alarm(30);
+	alarm(3);
 }
 
 static void default_cfg(void)
